@@ -163,7 +163,29 @@ pub fn apply(env: &Env, reg: &mut Registry, op: &Op) -> OpResult {
 
 /// Evaluate one history against the oracle of property `pid`. Returns the Debug key of the final
 /// registry and the first failure (key, message).
-pub fn eval_history(env: &Env, ops: &[Op], pid: &str) -> (String, Option<(String, String)>) {
+/// streams the Debug rendering of a value into two independent hashers (no allocation)
+pub struct HashWriter(pub std::collections::hash_map::DefaultHasher, pub std::collections::hash_map::DefaultHasher);
+impl std::fmt::Write for HashWriter {
+    fn write_str(&mut self, s: &str) -> std::fmt::Result {
+        use std::hash::Hasher;
+        self.0.write(s.as_bytes());
+        self.1.write(s.as_bytes());
+        Ok(())
+    }
+}
+pub fn debug_key<T: std::fmt::Debug>(t: &T) -> (u64, u64) {
+    use std::fmt::Write;
+    use std::hash::Hasher;
+    let mut a = std::collections::hash_map::DefaultHasher::new();
+    let mut b = std::collections::hash_map::DefaultHasher::new();
+    a.write_u8(1);
+    b.write_u8(2);
+    let mut w = HashWriter(a, b);
+    let _ = write!(w, "{t:?}");
+    (w.0.finish(), w.1.finish())
+}
+
+pub fn eval_history(env: &Env, ops: &[Op], pid: &str) -> ((u64, u64), Option<(String, String)>) {
     u1::reset_counters();
     let mut reg = Registry::new();
     let mut all_pairs: Vec<(MetaType, u32)> = vec![];
@@ -172,7 +194,7 @@ pub fn eval_history(env: &Env, ops: &[Op], pid: &str) -> (String, Option<(String
     let mut known: BTreeMap<TypeId, u32> = BTreeMap::new(); // identities already present -> id (from image walks)
     for (k, op) in ops.iter().enumerate() {
         let last = k + 1 == ops.len();
-        let before = if last { Some((snapshot(&reg), format!("{reg:?}"))) } else { None };
+        let before = if last { Some((snapshot(&reg), if pid == "C05" { format!("{reg:?}") } else { String::new() })) } else { None };
         let r = apply(env, &mut reg, op);
         if let (Some(e), true) = (&r.ip_error, last) {
             if pid == "C02" || pid == "C01" {
@@ -232,7 +254,7 @@ pub fn eval_history(env: &Env, ops: &[Op], pid: &str) -> (String, Option<(String
         }
     }
     let counters = u1::counters();
-    let key = format!("{reg:?}");
+    let key = debug_key(&reg);
     let snap = snapshot(&reg);
     let reg2 = std::mem::take(&mut reg);
     let portable: PortableRegistry = reg2.into();
@@ -358,7 +380,7 @@ impl Model for HistModel {
     type State = St;
     type Action = Op;
     fn init_states(&self) -> Vec<St> {
-        vec![St { history: vec![], key: (h64(&format!("{:?}", Registry::new())), 0) }]
+        vec![St { history: vec![], key: debug_key(&Registry::new()) }]
     }
     fn actions(&self, s: &St, out: &mut Vec<Op>) {
         if s.history.len() < self.depth {
@@ -374,7 +396,7 @@ impl Model for HistModel {
         let h2 = h.clone();
         let (key, fail) = match catch(std::panic::AssertUnwindSafe(move || eval_history(env, &h2, pid))) {
             Ok(x) => x,
-            Err(p) => (format!("panic:{p}:{h:?}"), Some(("panic".to_string(), format!("panicked: {p}")))),
+            Err(p) => (debug_key(&format!("panic:{p}:{h:?}")), Some(("panic".to_string(), format!("panicked: {p}")))),
         };
         if let Some((k, msg)) = fail {
             let mut v = self.violations.lock().unwrap();
@@ -382,9 +404,7 @@ impl Model for HistModel {
                 v.push(Violation { key: k, msg: format!("{msg} — after {:?}", env.labels(&h)), case: json!({"kind": "u1-history", "ops": env.labels(&h)}) });
             }
         }
-        let k = (h64(&key), h64(&(1u8, &key)));
-        self.outcomes.lock().unwrap().insert(k.0);
-        Some(St { history: h, key: k })
+        Some(St { history: h, key })
     }
     fn properties(&self) -> Vec<Property<Self>> {
         // verdicts are collected per transition in `violations` (so that a known finding cannot end
@@ -412,9 +432,22 @@ pub fn explore(env: &'static Env, pid: &'static str, depth: usize, threads: usiz
     let max_depth = checker.max_depth();
     let m = checker.model();
     let violations = std::mem::take(&mut *m.violations.lock().unwrap());
-    let distinct_registries = m.outcomes.lock().unwrap().len() as u64;
+    let distinct_registries = states;
     let transitions = m.transitions.load(Ordering::Relaxed);
     HistStats { states, transitions, max_depth, distinct_registries, violations }
+}
+
+/// the same exploration with the layered parallel explorer
+pub fn explore_layers(env: &'static Env, pid: &'static str, depth: usize) -> HistStats {
+    let st = crate::bfs::explore(&env.alphabet, depth, debug_key(&Registry::new()), 20000, |h: &[Op]| {
+        let hv = h.to_vec();
+        let (key, fail) = match catch(std::panic::AssertUnwindSafe(|| eval_history(env, &hv, pid))) {
+            Ok(x) => x,
+            Err(p) => (debug_key(&format!("panic:{p}:{h:?}")), Some(("panic".to_string(), format!("panicked: {p}")))),
+        };
+        (key, fail.map(|(k, msg)| Violation { key: k, msg: format!("{msg} — after {:?}", env.labels(h)), case: json!({"kind": "u1-history", "ops": env.labels(h)}) }))
+    });
+    HistStats { states: st.states, transitions: st.transitions, max_depth: st.max_depth, distinct_registries: st.states, violations: st.violations }
 }
 
 pub fn env_full() -> &'static Env {
